@@ -65,6 +65,17 @@ fn clone_m(m: &M) -> Option<M> {
     })
 }
 
+/// `Clone::clone_from` onto an existing object of the same type
+fn assign_m(dst: &mut M, src: &M) -> Option<()> {
+    match (dst, src) {
+        (M::Bm(d), M::Bm(s)) => d.assign_from(s.as_any()),
+        (M::Buf(d), M::Buf(s)) => d.assign_from(s.as_any()),
+        (M::St(d), M::St(s)) => d.assign_from(s.as_any()),
+        (M::Core(d), M::Core(s)) => d.assign_from(s.as_any()),
+        _ => None,
+    }
+}
+
 fn describe_op(op: &Op) -> String {
     match op {
         Op::Blocks(k, d, _, _) => format!("{k:?}({}B)", d.len()),
@@ -160,6 +171,8 @@ pub fn check(ctx: &Ctx, t: &mut Tape<'_>, r: &mut Report) -> CheckResult {
     let h2: Vec<Op> = (0..3).map(|i| gen_op(t, 10 + i)).collect::<Vec<_>>().into_iter().take(n2).collect();
     let h3: Vec<Op> = (0..3).map(|i| gen_op(t, 20 + i)).collect::<Vec<_>>().into_iter().take(n3).collect();
     let order = t.byte();
+    // (read last so that older tapes keep their meaning)
+    let via_clone_from = t.chance(80);
     r.label(match family {
         0 => "block-mode",
         1 => "buffered-cfb",
@@ -194,11 +207,22 @@ pub fn check(ctx: &Ctx, t: &mut Tape<'_>, r: &mut Report) -> CheckResult {
         for op in &h1 {
             exec(&mut x, op);
         }
-        let Some(y) = clone_m(&x) else {
+        let Some(mut y) = clone_m(&x) else {
             r.label("type-not-cloneable");
             r.nontrivial = false;
             return Ok(());
         };
+        if via_clone_from {
+            // `clone_from` onto a live object with a different key, IV and history
+            let mut z = mk(&key2, &iv2);
+            if let Some(op) = h1.first() {
+                exec(&mut z, op);
+            }
+            if assign_m(&mut z, &x).is_some() {
+                r.label("clone_from");
+                y = z;
+            }
+        }
         (x, y)
     };
     // interleave
